@@ -29,7 +29,7 @@ THEOREMS = [
     "C08.take_natural", "C08.skip_natural", "C08.take_last_natural", "C08.skip_last_natural", "C08.take_last_buffer_natural",
     "C08.pairwise_natural", "C08.start_with_natural", "C08.default_if_empty_natural", "C08.ignore_elements_natural",
     "C08.element_at_natural", "C08.map_natural", "C08.map_indexed_natural", "C08.filter_natural", "C08.filter_indexed_natural",
-    "C08.take_while_natural", "C08.skip_while_natural", "C08.distinct_natural", "C08.distinct_natural_inj",
+    "C08.take_while_natural", "C08.skip_while_natural", "C08.take_while_indexed_natural", "C08.skip_while_indexed_natural", "C08.dematerialize_natural", "C08.distinct_natural", "C08.distinct_natural_inj",
     "C08.distinct_until_changed_natural", "C08.distinct_until_changed_natural_inj", "C08.find_natural", "C08.find_index_natural",
     "C08.materialize_natural", "C08.pyval_models_empty", "C08.pyval_asis_only_skip_last", "C08.skip_last_asis_not_natural",
 ]
@@ -657,7 +657,6 @@ LEVEL_TEXT = ("Lean theorems: naturality — for every renaming of the elements 
               "distinct_until_changed, find, find_index, materialize commute with the renaming (corollaries of the C05 op_eq theorems): no value, "
               "falsy or not, is special. pyval_models_empty: no operator model needs truthiness/is-None of an element (regenerated table). "
               "Real code: C05 differential runs on the falsy domain + a model-independent naturality oracle over ~125 operators/factories/subjects.")
-LEVEL_NOTE = ("Lean part covers the Ops family only (the operators modelled for C05); take_while_indexed/skip_while_indexed/dematerialize/scan have no "
-              "separate naturality theorem (same proof pattern). Subjects and all other operator families are covered by the real-code naturality "
+LEVEL_NOTE = ("Lean part covers the Ops family only (the operators modelled for C05); scan (used only by slice) has no separate naturality theorem. Subject, BehaviorSubject and AsyncSubject have their own value-naturality theorems in the subject family (C20.subject_natural, C21.behavior_natural, C23.async_natural over RxProofs/Lemmas/SubjNat.lean, for an arbitrary renaming; audited under C20/C21/C23, cited here, not imported); ReplaySubject and all other operator families are covered by the real-code naturality "
               "oracle only (exploration, not proof). skip_last is the fixed one; skip_last_asis_not_natural shows the pinned one is not natural. "
               "The PyVal table is regenerated from the Lean model sources (not from /repo); the /repo AST scan only lists candidate sites.")
